@@ -237,7 +237,7 @@ Qed.
 (* ---------------------------------------------------------------- one defragmentation call *)
 
 Lemma dexec_L v run o :
-  VamInv c v -> VamGran.GV v -> LInv v -> def_min0 v -> drun_ok v run -> dop_ok v run o ->
+  VamInv c v -> VamGran.GV c v -> LInv v -> def_min0 v -> drun_ok v run -> dop_ok v run o ->
   let '(v', run', r, dr) := dexec c v run o in
   match r with PANIC | STUCK => True | _ => LInv v' /\ def_min0 v' end.
 Proof.
@@ -268,7 +268,7 @@ Proof.
 Qed.
 
 Theorem dstep_L v run o f :
-  VamInv c v -> VamGran.GV v -> LInv v -> def_min0 v -> drun_ok v run -> dop_ok v run o ->
+  VamInv c v -> VamGran.GV c v -> LInv v -> def_min0 v -> drun_ok v run -> dop_ok v run o ->
   let '(v', run', r, calls, dr) := dstep c v run o f in
   r <> RPanic -> r <> RStuck -> LInv v' /\ def_min0 v'.
 Proof.
@@ -278,7 +278,7 @@ Proof.
   { unfold v0, VamInv. apply VamInvU_mach_same; [exact HI|]. split; cbn; [apply mems_same_refl|lia]. }
   assert (Hr0 : drun_ok v0 run) by (destruct run as [rn|]; [apply run_ok_set_m; exact Hr|exact I]).
   assert (Hok0 : dop_ok v0 run o) by (destruct o; cbn in *; auto).
-  pose proof (dexec_L v0 run o I0 (VamGran.GR_set_m v _ HV) (LInv_set_m v _ HL) (def_min0_set_m v _ H0) Hr0 Hok0) as E.
+  pose proof (dexec_L v0 run o I0 (VamGran.GR_set_m c v _ HV) (LInv_set_m v _ HL) (def_min0_set_m v _ H0) Hr0 Hok0) as E.
   destruct (dexec c v0 run o) as (((v1 & run1) & r) & dr).
   intros Hp Hs. destruct r as [[]|code| |]; cbn in Hp, Hs; try congruence; cbn in E; destruct E as (A & B);
     (split; [apply LInv_set_m; exact A|apply def_min0_set_m; exact B]).
